@@ -55,6 +55,8 @@ OUTPUT_SRCS = [
     "def keep(a, b=2, c=3, *, d=4, e: int = 5, x=6):\n    return a\n",
     "class A(object):\n    x: str = 'old'\n    s: int = 1\n    other: float = 2.0\n\n\nUNTOUCHED = [1, 2, 3]\n",
     "def keep(a, s='q', b=3, *args, p=0.5, **kw):\n    '''doc'''\n    return s\n",
+    # positional-only parameters (the default slot arithmetic counts args.args only)
+    "def keep(a, /, b=1, x=2, s=4):\n    return a\n\n\nclass P(object):\n    def keep(self, /, b=1, x=2):\n        return b\n",
 ]
 INPUT_PARAMS = ["In.x", "In.s", "In.e", "src.p", "src.q"]
 EVAL_PARAMS = ["LIT"]
